@@ -132,14 +132,22 @@ func runList(l []raceOp) []string {
 				out = append(out, "mic "+err.Error())
 				continue
 			}
+			// the validation that matches, then two that do not (another key, another frame counter): rejecting a frame is
+			// as much an operation on the caller's own value as accepting one
+			other := k
+			other[5] ^= 0x40
 			if ref.IsUplinkMType(byte(p.MHDR.MType)) {
 				_ = p.SetUplinkDataMIC(lorawan.LoRaWAN1_1, 3, 1, 2, k, k)
 				ok, err := p.ValidateUplinkDataMIC(lorawan.LoRaWAN1_1, 3, 1, 2, k, k)
-				out = append(out, fmt.Sprintf("mic %x %v %v", p.MIC[:], ok, err))
+				bad1, _ := p.ValidateUplinkDataMIC(lorawan.LoRaWAN1_1, 3, 1, 2, other, other)
+				bad2, _ := p.ValidateUplinkDataMIC(lorawan.LoRaWAN1_0, 4, 1, 2, other, k)
+				out = append(out, fmt.Sprintf("mic %x %v %v %v %v", p.MIC[:], ok, err, bad1, bad2))
 			} else {
 				_ = p.SetDownlinkDataMIC(lorawan.LoRaWAN1_1, 3, k)
 				ok, err := p.ValidateDownlinkDataMIC(lorawan.LoRaWAN1_1, 3, k)
-				out = append(out, fmt.Sprintf("mic %x %v %v", p.MIC[:], ok, err))
+				bad1, _ := p.ValidateDownlinkDataMIC(lorawan.LoRaWAN1_1, 3, other)
+				bad2, _ := p.ValidateDownlinkDataMIC(lorawan.LoRaWAN1_0, 4, other)
+				out = append(out, fmt.Sprintf("mic %x %v %v %v %v", p.MIC[:], ok, err, bad1, bad2))
 			}
 		case "crypt":
 			var p lorawan.PHYPayload
